@@ -278,6 +278,9 @@ def run(ctx, res):
     from . import dispatch
     dispatch.check(ctx, res, "C03.R5")
 
+    # ---- properties this one rests on (re-run here, labelled <this>.D.<rule>) ------------------
+    depends(ctx, res, 'C09', ('C09.R6',), 'seeks are routed by the index keys the separator function produces')
+
 def _callee_couples(prog, cg, callee, pidx):
     """In `callee`, every path that loads a block with offset X also stores X through parameter pidx."""
     ev = APE.run(prog, cg, callee, bound=APE.BOUND)
